@@ -79,6 +79,14 @@ def _junction(is_and):
     return sf
 
 
+def sf_subseq(E, st, args, kw):
+    """subseq(b, start, length): bytes [start, start + length) of b as the SMT sequence extract (total; equals the Python slice
+    b[start:start + length] whenever 0 <= start, 0 <= length and start + length <= len(b)); no path-condition queries"""
+    b, start, length = args
+    return [('val', st, mk_bytes(z3.SubSeq(zbytes(b), zint(start), zint(length))))]
+
+
+_interp.SPEC_BUILTINS.setdefault('subseq', BuiltinV('spec.subseq', sf_subseq))
 _interp.SPEC_BUILTINS.setdefault('conj', BuiltinV('spec.conj', _junction(True)))
 _interp.SPEC_BUILTINS.setdefault('disj', BuiltinV('spec.disj', _junction(False)))
 
@@ -577,3 +585,57 @@ def units(prop, tier):
     for c in (range(4, 32) if thorough else (4, 9, 10, 12, 31)):
         us.append(pyvc_unit(prop, 'kdf.bcrypt.cost%02d' % c, R(bcrypt=True, cost=c), [K + 'bcrypt'], weight=3))
     return us
+
+
+# ====================================================================================================================
+# NOT PROVED / assumed / notes (C12)
+#
+# NOT PROVED: PBKDF2, generic path (caller's prf, or a hash module without _pbkdf2_hmac_assist) for a SYMBOLIC iteration count:
+#   `reduce(strxor, (link(s) for j in range(count)))` is a fold over a generator of symbolic length.  Proved: the whole function
+#   for count = 1, 2 (quick) and 3 (thorough) -- block index INT(i), U_1 ^ ... ^ U_c, truncation, dkLen refusal -- and for EVERY
+#   count on the fast path.  Engine feature that would close it: generator/comprehension over a symbolic range cut by an
+#   invariant (a fold abstraction with an accumulator), like the 'acc' list abstraction does for append loops.
+# NOT PROVED: multi-key slicing of HKDF / SP800_108_Counter / scrypt for a SYMBOLIC num_keys (the result is a list comprehension
+#   over a range of symbolic length).  Proved per value: num_keys = 1, 2, 3 (quick) / 1..8 (thorough; scrypt 1, 2 / 1..4), each with
+#   symbolic key_len: "key i == stream[i*key_len:(i+1)*key_len]".  Engine feature: a list abstraction of symbolic length for
+#   `[f(idx) for idx in range(lo, hi, step)]` (length and i-th element as functions).
+# NOT PROVED: bcrypt with salt=None beyond the layout of the result (the 16 salt bytes are fresh entropy).
+# Assumed (see each `assumed=`): HMAC / hash objects (C03), _pbkdf2_hmac_assist (C), scryptROMix (C; ERR_MEMORY not modelled),
+#   EKSBlowfish (C), _bcrypt_encode/_bcrypt_decode (string formatting, bounded), long_to_bytes, strxor, keyed BLAKE2s-160 injective
+#   for the drawn key, the caller's prf (a deterministic total function with fixed output length), python `re` for the one
+#   fixed-width pattern of bcrypt_check (of the 53 radix-64 characters only "the pattern matched" is known: spec.kdf.bcrypt_fmt_ok).
+# Quantification: password / salt / master / label / context are `bytes` of any length (str / bytearray / memoryview inputs go
+#   through py3compat.tobytes first: not covered); key_len >= 1 (>= 0 where one key), count >= 1, dkLen >= 0.
+#
+# Recursive spec streams (hkdf_T, hkdf_stream, pbkdf2_U/X/blocks, pbkdf1_T, sp108_stream, scrypt_mix) are uninterpreted symbols
+#   with their DEFINING equations attached as facts (one unfolding per application, nested to depth 3): definitions, not lemmas.
+#
+# Domain notes, replayed natively (reported; by decision stated as domain, nothing registered red):
+#   * SP800_108_Counter: the counter check fires one block early: n = ceil(L/h) = 2**32 - 1 blocks (allowed by SP 800-108r1) is refused;
+#     contract: ValueError iff NUL in context, L >= 2**32 bits, or ceil(L/h) >= 2**32 - 1.
+#   * SP800_108_Counter: [L]_4 silently grew to 8 bytes for L >= 2**32 bits -- FIXED in /repo (44361996), now a refusal clause.
+#   * SP800_108_Counter: a zero byte in `label` is accepted (library test test_negative_zeroes); only the context is NUL-checked.
+#   * HKDF(master, -5, b'', SHA256) == b'' (negative key_len not refused); PBKDF1(count <= 0) == PBKDF1(count = 1).
+#   * scrypt: documented domain N < 2**32; RFC 7914 section 2 says N < 2**(128*r/8), the smaller bound for r = 1 (N in 2**16..2**31
+#     accepted with r = 1; the function computed is still RFC 7914's).  r < 1, p < 1, N < 2 refused since 6fef62b2.
+#
+# Mutants (tools/mut.py, lib/Crypto/Protocol/KDF.py; exit code, obligation that caught it):
+#   _HKDF_expand: struct.pack('B', n) -> n - 1                          1  _HKDF_expand.loop_inv_preserved (t[-1] == hkdf_T(.., n - 1))
+#   _HKDF_expand: `while tlen < L` -> `<=` (one block too many)         1  _HKDF_expand.raises_only.error (counter byte 256), loop_inv_preserved
+#   HKDF: 255 * digest_size -> 256 *                                    1  HKDF.call_pre (L <= 255*HashLen of _HKDF_expand)
+#   HKDF: default salt digest_size zero bytes -> 16                     1  HKDF.ensures.key0 / key1
+#   PBKDF2 fast path: INT(i) ">I" -> "<I"                               1  PBKDF2.loop_inv_preserved (key == pbkdf2_blocks(.., i - 1))
+#   PBKDF2: key[:dkLen] -> key[:dkLen + 1]                              1  PBKDF2.ensures.value / len
+#   PBKDF1: iter_range(count-1) -> iter_range(count)                    1  PBKDF1.ensures.value
+#   SP800_108: 0x00 separator dropped                                   1  SP800_108_Counter.loop_inv_preserved
+#   SP800_108: [i]_4 -> long_to_bytes(i, 2)                             1  SP800_108_Counter.loop_inv_preserved
+#   SP800_108: L in bytes instead of bits                               2  loop_inv_preserved undecided (no counter-model found in time: seq + int2bv)
+#   scrypt: `N >= 2 ** 32` -> `>`                                       1  scrypt.call_pre (0 <= N < 2**32 of scryptROMix), raises_iff.ValueError.if
+#   scrypt: idx = flow * 128 * r -> * 64 *                              1  scrypt.loop_inv_preserved (join == scrypt_mix)
+#   scrypt: p bound `// (128 * r)` -> `// (64 * r)`                     -  no verdict within 25 min: z3 does not return from the non-linear
+#                                                                          counter-model search (a `timeout`-wrapped check ends non-zero, never green)
+#   bcrypt: `len(password) < 72` -> `<= 72`                             2  bcrypt.raises_iff.ValueError.only_if undecided (72-byte NUL-free model not found in time)
+#   _bcrypt_hash: cost <= 31 -> <= 32                                   1  _bcrypt_hash.call_pre (0 <= cost <= 31 of _EKSBlowfish.new)
+#   bcrypt_check: `mac1 != mac2` -> `==`                                1  bcrypt_check.raises_iff.ValueError.only_if / .if
+#   benign: loop-carried `tlen` renamed in _HKDF_expand                 2  (invariant names the variable: proof needs maintenance, never 1)
+#   benign: local `okm` renamed in HKDF                                 0
